@@ -179,7 +179,10 @@ def symbolic_names(B, rep, tier):
     cases.append(("FilePrint+FilePrint0", both(act("FilePrint", c1), act("FilePrintNull", c2)), [c1, c2], ["FilePrint", "FilePrintNull"]))
     c3, c4 = [sym_char()], [sym_char()]
     cases.append(("FilePrint+FilePrint", both(act("FilePrint", c3), act("FilePrint", c4)), [c3, c4], ["FilePrint", "FilePrint"]))
+    cases.sort(key=lambda c_: sum(len(x) for x in c_[2]))
     for label, tree, names, kinds in cases:
+        if any(v[0] == "routing:file-name" for v in rep.violations) and sum(len(x) for x in names) > 2:
+            break              # already refuted on short names: the longer ones only look for names treated specially
         assume = [char_valid(c) for cs in names for c in cs]
         findings, info = compare(B, "names:" + label, tree, None, assume_extra=assume)
         n_ob += 1
